@@ -97,6 +97,11 @@ Proof.
 Qed.
 Print Assumptions C02_translated_mutation_keeps_fitness_true.
 
+(* Population.from_individuals / to_individuals (translated): an individual's genome and fitness stay one row, in order, both ways *)
+Theorem C02_translated_individuals_round_trip {G} (inds : list (G * Z)) : gen_to_individuals (gen_from_individuals inds) = inds.
+Proof. rewrite to_individuals_rows. exact (proj1 (from_individuals_rows inds)). Qed.
+Print Assumptions C02_translated_individuals_round_trip.
+
 (* ---------------------------------------------------------------- the same for the TRANSLATED constructors.
    Gen/GenCtor.v is regenerated on every check from AbstractDeme.__init__, the __init__ of EADeme, DEDeme, SHADEDeme, CMADeme, LocalDeme,
    LHSDeme, SobolDeme (+ the run() the two samplers call), Individual.__init__ / evaluate / evaluate_population / create_population,
